@@ -67,6 +67,26 @@ def comb(n):
     return v + 1
 
 
+@_asynq()
+def leaf(i):
+    steps[i] += 1
+    a = yield _I(i)
+    steps[i] += 1
+    return a
+
+
+@_asynq()
+def fan(n, as_tuple):
+    """ONE yield of n tasks (each waiting for one batch item): width instead of depth"""
+    steps[n] += 1
+    fs = [leaf.asynq(i) for i in range(n)]
+    vs = yield (tuple(fs) if as_tuple else fs)
+    steps[n] += 1
+    for f in fs:
+        assert f.is_computed()
+    return len(vs)
+
+
 def run_deep(shape, d):
     """returns list of (category, message)"""
     global steps
@@ -90,6 +110,10 @@ def run_deep(shape, d):
             v = comb(d)
             exp_steps = [2] * (d + 1)
             exp_steps[0] = 1
+            exp_flush = [d] if d else []
+        elif shape in ("fan-list", "fan-tuple"):
+            v = fan(d, shape == "fan-tuple")
+            exp_steps = [2] * (d + 1)
             exp_flush = [d] if d else []
         else:
             raise ValueError(shape)
